@@ -1,4 +1,5 @@
 pub mod engine;
+pub mod fuzzing;
 pub mod gen;
 pub mod oracle;
 pub mod props;
